@@ -231,7 +231,8 @@ def shard_main(pid, tier, seed, shard, nshards, out):
 
 
 def write_replay(pid, viol):
-    d = os.path.join(VERIF, 'replays', pid, 'found')
+    d = os.path.join(os.environ.get('VERIF_FOUND_DIR') or os.path.join(VERIF, 'replays'), pid,
+                     'found')
     os.makedirs(d, exist_ok=True)
     name = '%s-%s.json' % (h64(viol['signature']), viol['seed'])
     path = os.path.join(d, name)
@@ -429,8 +430,9 @@ def main(argv):
         'wall_s': round(time.time() - t0, 2),
         'violations': len(violations),
     }
-    os.makedirs(os.path.join(VERIF, 'evidence'), exist_ok=True)
-    with open(os.path.join(VERIF, 'evidence', pid + '.json'), 'w') as f:
+    evdir = os.environ.get('VERIF_EVIDENCE_DIR') or os.path.join(VERIF, 'evidence')
+    os.makedirs(evdir, exist_ok=True)
+    with open(os.path.join(evdir, pid + '.json'), 'w') as f:
         json.dump(ev, f, indent=1, default=repr, sort_keys=True)
     print('%s %s: %d cases, %d distinct non-trivial, %d known-finding hits, %d violation(s), '
           '%.1fs%s' % (pid, a.tier, evaluations, len(nontrivial), sum(known_seen.values()),
